@@ -6,7 +6,9 @@ import (
 	"math/rand/v2"
 
 	"mvdan.cc/sh/v3/syntax"
+	"strings"
 	"verif/mon"
+	"verif/oracle"
 )
 
 // C02: formatting is idempotent.
@@ -74,6 +76,10 @@ func (p *c02) Run(payload any) mon.Result {
 			res.Count("carved:"+id, 1)
 			continue
 		}
+		if id := commentCarve(p.env.Findings, f0, o); id != "" {
+			res.Count("carved:"+id, 1)
+			continue
+		}
 		out1, perr := printWith(o, f)
 		if perr != nil {
 			res.Count("c01-territory:print-error", 1)
@@ -85,6 +91,14 @@ func (p *c02) Run(payload any) mon.Result {
 		f2, err := parseAs(out1, lang, true)
 		if err != nil {
 			res.Count("c01-territory:reparse", 1)
+			continue
+		}
+		if id := commentCarve(p.env.Findings, f2, o); id != "" {
+			res.Count("carved:"+id, 1)
+			continue
+		}
+		if id := idemCarve(p.env.Findings, f2, o); id != "" {
+			res.Count("carved:"+id, 1)
 			continue
 		}
 		if o.Simplify {
@@ -109,5 +123,108 @@ func (p *c02) Run(payload any) mon.Result {
 
 // idemCarve: regions of known idempotency findings (see KNOWN_FINDINGS.json).
 func idemCarve(fs *mon.Findings, f syntax.Node, o POpts) string {
-	return ""
+	id := ""
+	hit := func(name string) {
+		if id == "" && fs.Active(name) {
+			id = name
+		}
+	}
+	comments := oracle.Comments(f)
+	var stack []syntax.Node
+	syntax.Walk(f, func(n syntax.Node) bool {
+		if n == nil {
+			stack = stack[:len(stack)-1]
+			return true
+		}
+		stack = append(stack, n)
+		switch x := n.(type) {
+		case *syntax.CmdSubst:
+			if x.Backquotes {
+				multi := x.Right.Line() > x.Left.Line()
+				if hasHeredoc(x) || multi {
+					hit("C02-backquote-multiline")
+				}
+				for _, c := range comments {
+					if c.Hash.After(x.Left) && x.Right.After(c.Hash) {
+						hit("C02-backquote-multiline")
+					}
+				}
+			}
+		case *syntax.Redirect:
+			if (x.Op == syntax.Hdoc || x.Op == syntax.DashHdoc) && x.Hdoc != nil {
+				hasSubst := false
+				for _, part := range x.Hdoc.Parts {
+					switch part.(type) {
+					case *syntax.CmdSubst, *syntax.ProcSubst:
+						hasSubst = true
+					}
+				}
+				if hasSubst {
+					for _, c := range comments {
+						if c.Hash.After(x.OpPos) && x.Hdoc.Pos().After(c.Hash) {
+							hit("C02-heredoc-line-comment-migrates")
+						}
+					}
+				}
+				if x.Op == syntax.DashHdoc && o.Indent == 0 && !o.Minify {
+					var b strings.Builder
+					for _, part := range x.Hdoc.Parts {
+						if l, ok := part.(*syntax.Lit); ok {
+							b.WriteString(l.Value)
+						} else {
+							b.WriteString("X")
+						}
+					}
+					first, min := -1, -1
+					for _, line := range strings.Split(b.String(), "\n") {
+						if strings.TrimLeft(line, "\t") == "" {
+							continue
+						}
+						t := len(line) - len(strings.TrimLeft(line, "\t"))
+						if first < 0 {
+							first = t
+						}
+						if min < 0 || t < min {
+							min = t
+						}
+					}
+					if first >= 0 && min < first {
+						hit("C02-dashhdoc-uneven-tabs")
+					}
+				}
+			}
+		case *syntax.TestClause:
+			if x.X != nil && x.X.Pos().Line() > x.Left.Line() {
+				hit("C02-test-clause-leading-newline")
+			}
+		case *syntax.Subshell:
+			if o.Minify && len(x.Stmts) == 0 {
+				hit("C02-zsh-minify-empty-subshell")
+			}
+			if o.Minify && len(x.Stmts) > 0 && x.Rparen.Line() > stmtsEndLine(x.Stmts) {
+				hit("C02-minify-subshell-closing-later-line")
+			}
+		case *syntax.ArrayExpr:
+			if o.Minify && x.Rparen.Line() > x.Lparen.Line() {
+				hit("C02-minify-multiline-array")
+			}
+		case *syntax.DblQuoted:
+			if o.Simplify && x.Right.Line() > x.Left.Line() {
+				hit("C02-simplify-quote-escaped-newline")
+			}
+		case *syntax.BinaryCmd:
+			if hasHeredoc(x.X) && x.Y.Pos().Line() > x.OpPos.Line() {
+				_, simple := x.Y.Cmd.(*syntax.CallExpr)
+				if o.BinaryNextLine || !simple || len(stack) > 3 || len(x.Y.Comments) > 0 || len(comments) > 0 {
+					hit("C02-heredoc-then-operator-newline")
+				}
+			}
+		}
+		return true
+	})
+	return id
+}
+
+func stmtsEndLine(stmts []*syntax.Stmt) uint {
+	return stmts[len(stmts)-1].End().Line()
 }
